@@ -13,11 +13,11 @@ PROPS = {
         theorems=["flat_unflat", "unflat_flat", "unflat_inB", "flat_lt", "indexFromFlat_eq", "dot_strides", "get_eq",
                   "get_isSome_iff", "indices_history", "indices_len", "getAxis_none_iff", "view_history",
                   "viewElem_isSome", "view_len", "view_toList", "axis_history", "axis_len", "sumAxis_eq"],
-        nontrivial=r"^(indices-d[2-9]|view-rem[1-9]|axis-d[2-9]|sum-d[2-9]|get-some)",
+        nontrivial=r"^(indices-d[2-9]|view-rem[1-9]|axis-d[2-9]|sum-d[2-9]|get-some|histarr-)",
         rule="exhaustive shapes (quick: 1-4 axes x lengths 1..3 and 1-3 axes x 1..4; thorough: 1-5 x 1..4, 1-4 x 5, 1-3 x 1..5) x all axes x all positions, "
              "each iterator driven size+5 calls with len() sampled before every call, plus out-of-range axis {d, d+1, 2^64-1}, position = length / 2^64-1, "
              "wrong-length and out-of-range indices, plus random larger shapes; non-trivial = distinct request on an array with >= 2 axes "
-             "(or a view with >= 1 remaining axis, or an in-range get) 200 (thorough 2000) `hist.arr` call histories on one array object with 1-6 axes (get, set through IndexMut / get_mut, axis views, axis iterators, index iterators, axis sums, replacement by an axis sum, clones). Array histories also advance a view iterator k times and drain it through count / sum / last / fold / for_each / max; every shape with 1-3 axes of length 0..3 containing a zero-length axis (index / axis iterators, every axis view, axis sums).",
+             "(or a view with >= 1 remaining axis, or an in-range get) 200 (thorough 2000) `hist.arr` call histories on one array object with 1-6 axes (get, set through IndexMut / get_mut, axis views, axis iterators, index iterators, axis sums, replacement by an axis sum, clones). Array histories also advance a view iterator k times and drain it through count / sum / last / fold / for_each / max; every shape with 1-3 axes of length 0..3 containing a zero-length axis (index / axis iterators, every axis view, axis sums). Round 7: `clonefrom` / `asg` (the object overwritten in place from one of another shape) in the call histories.",
         exhaustive=True,
         assumptions=["element type u64 ramp data for get/iter histories; f64 prime data for Array::sum (exact in binary64)"],
     ),
@@ -27,7 +27,7 @@ PROPS = {
         nontrivial=r"^fold-",
         rule="all shapes 1-4 axes x lengths 1..4 (+1-2 axes x 5..7, + random; thorough: all 1-4 x 1..7) with random dyadic non-antisymmetric data "
              "(exact in binary64), all four fills, NaN/inf inputs in 1/7 of the shapes; fold(fold x) and fold(reverse x) evaluated on the implementation; "
-             "non-trivial = distinct request (every fold of a shape with >= 1 element exercises the three-way match) 60 (thorough 600) `hist.scs` call histories; size sweeps (every 1-axis length up to 64 and every third up to 300, thorough all up to 700; n x 2 / 2 x n / 3 x n; 5-8 short axes).",
+             "non-trivial = distinct request (every fold of a shape with >= 1 element exercises the three-way match) 60 (thorough 600) `hist.scs` call histories; size sweeps (every 1-axis length up to 64 and every third up to 300, thorough all up to 700; n x 2 / 2 x n / 3 x n; 5-8 short axes). Round 7: `c05.big` — spectra of 65537 … 262144 entries held against fold_mass / fold_spec / fold_idem / reverse_is_mirror on the implementation's output.",
         exhaustive=True,
         assumptions=["values are multiples of 1/4 below 2^9 so that binary64 sums and halves are exact and compared exactly"],
     ),
@@ -38,7 +38,7 @@ PROPS = {
         nontrivial=r"^(marg-(sorted|unsorted|stepwise)-[1-9]of[2-9]|err-)",
         rule="all shapes 1-3 axes x lengths 1..4 and 4 axes x 1..2 (thorough: 1-4 x 1..4, 5 x 1..3, 400 random up to 5 axes x 1..6) x all subsets of axes x all orders, "
              "odd integer data with distinct gaps (exact sums), one-at-a-time removal on the implementation, error streams (duplicate, out of range, 2^64-1, all axes, empty list); "
-             "non-trivial = distinct request removing >= 1 axis of a >= 2-axis spectrum, or an error case 60 (thorough 600) `hist.scs` call histories; size sweeps (one axis of every length up to 130, thorough 400, next to short ones; 6-8 short axes). Round 6: `sfs view -m AXES` / `-M KEEP` through the binary on 2-5 axes, keep lists with repeated and unknown axes, duplicate remove lists (adjacent and not).",
+             "non-trivial = distinct request removing >= 1 axis of a >= 2-axis spectrum, or an error case 60 (thorough 600) `hist.scs` call histories; size sweeps (one axis of every length up to 130, thorough 400, next to short ones; 6-8 short axes). Round 6: `sfs view -m AXES` / `-M KEEP` through the binary on 2-5 axes, keep lists with repeated and unknown axes, duplicate remove lists (adjacent and not). Round 7: axes of 257, 258, 300, 401, 513, 640, 1025, 2049 entries.",
         exhaustive=True,
         assumptions=["integer data below 2^53: binary64 sums are exact and compared exactly"],
     ),
@@ -48,7 +48,7 @@ PROPS = {
         rule="real `sfs view -O npy` binary on 40 (thorough 400) random non-negative count spectra with 1-4 axes x all 2^4 option subsets "
              "(marginalize via -m or -M, project via --project-shape or -p, --mask-monomorphic, -n; 1/12 of marginalization / projection arguments inadmissible), "
              "single invocation and the four-stage chain piped through npy, compared with viewRun in exact rationals within 2^-30 relative; a quarter of the cases also as text at precision 0/1/3/6/12/15 (header line exact, one token per entry with exactly p decimals, each within half a printed unit + 2^-30 relative of the model value); "
-             "non-trivial = distinct request with at least one option set, or an error case A fifth of the inputs are on frequency scale already (dyadic fractions summing to exactly one), a tenth sum to one only between the corners, a tenth are zero except the corners. A fifth of the inputs have monomorphic cells of 2^52 / 2^53 / 1e18 / 1e300 next to single-digit interior counts. Round 6: keep lists naming an axis twice (adjacent or not) or an axis the spectrum does not have.",
+             "non-trivial = distinct request with at least one option set, or an error case A fifth of the inputs are on frequency scale already (dyadic fractions summing to exactly one), a tenth sum to one only between the corners, a tenth are zero except the corners. A fifth of the inputs have monomorphic cells of 2^52 / 2^53 / 1e18 / 1e300 next to single-digit interior counts. Round 6: keep lists naming an axis twice (adjacent or not) or an axis the spectrum does not have. Round 7: text outputs of 100 KiB and more through `view`, plain / masked / normalised.",
         exhaustive=False,
         assumptions=["numeric agreement within 2^-30*(|q| + scale): projection and normalisation are evaluated in binary64 by the implementation"],
         
@@ -76,18 +76,18 @@ PROPS = {
         rule="exhaustive: all 26 maps of 3 columns into <= 2 populations x all 64 records over {0,1,2,missing}^3 (in-process); random: 1-4 populations of unequal size, 2-12 (thorough 40) columns, "
              "any subset listed in any order, named/unnamed mix, 1-30 (thorough 300) records over called/missing/multiallelic/ploidy-error genotypes with 'only an unselected sample is bad' forced in 10%, "
              "two contigs, extra INFO/FORMAT fields; 300 in-process + 50 CLI (thorough 3000 + 400) over vcf/vcf.gz/bcf/raw bcf; stdout compared byte for byte (precision forced to 0); "
-             "non-trivial = distinct request with >= 2 populations, or with both counted and skipped records, or a failing run Positions repeat (a third of the records share contig:position with their predecessor). Byte level (`ct.create`): a third of the CLI cases are also decoded from their container bytes by the model (Inflate / Bgzf / Vcf / Bcf models) instead of being handed over in the harness's notation. Every CLI run carries a log verbosity derived from its arguments (none / -v / -vv / -vvv). INFO-rich call sets carry AC / AN values that are deliberately out of step with the genotypes. Round 6: a third of the CLI call sets use sample names and labels with blanks; VCF-bound call sets carry allele indices 256 / 257 / 65536 / 2^32 (truncation to a narrower integer).",
+             "non-trivial = distinct request with >= 2 populations, or with both counted and skipped records, or a failing run Positions repeat (a third of the records share contig:position with their predecessor). Byte level (`ct.create`): a third of the CLI cases are also decoded from their container bytes by the model (Inflate / Bgzf / Vcf / Bcf models) instead of being handed over in the harness's notation. Every CLI run carries a log verbosity derived from its arguments (none / -v / -vv / -vvv). INFO-rich call sets carry AC / AN values that are deliberately out of step with the genotypes. Round 6: a third of the CLI call sets use sample names and labels with blanks; VCF-bound call sets carry allele indices 256 / 257 / 65536 / 2^32 (truncation to a narrower integer). Round 7: BGZF layouts with a leading empty block, a two-byte first block, and VCF text without final newline cut inside its last line rotate through the CLI and byte-level cases.",
         exhaustive=True, assumptions=["in-process cases drive the real site::Reader through an in-memory genotype::Reader; CLI cases run the real binary on generated VCF text / BCF (noodles writer, or a hand-written BCF2.2 encoder for mixed ploidy) / BGZF", "noodles (VCF/BCF/BGZF parsing), clap and env_logger are exercised, not modelled"],
     ),
     "C02": dict(
         theorems=["site_classification", "contribution_projected", "exact_eq_projected", "insufficient_contributes_nothing", "run_projected_eq_spec",
                   "individuals_eq_shape", "unequal_dimensions_error", "oversized_error", "zero_error", "admissible_ok", "create_then_project", "source_constants"],
         modules=["SfsModel.Props.C02", "SfsModel.Props.Tie"],
-        nontrivial=r"^c02-(mem-proj-.*P|mem-proj-.*S.*I|mem-proj-.*I.*|mem-build-error|cli-)",
+        nontrivial=r"^c02-(mem-proj-.*P|mem-proj-.*S.*I|mem-proj-.*I.*|mem-build-error|cli-)|^mass-",
         rule="exhaustive: 2 populations of 1-2 samples x every target m_j in 0..2n_j x all records over {0,1,2,missing}^n (in-process, incl. t = m for all j, t_j = m_j - 2, m_j = 0); "
              "random maps/targets incl. inadmissible ones (larger, other dimensionality, zero), -p vs --project-shape; cohorts of 90-600 (thorough 3000) samples in one population (binomials beyond f64 range); "
              "CLI with --precision in {0,1,6,15,default}; values within 2^-30 relative (+ half a unit of the printed decimal for CLI text) of the exact rational model; "
-             "non-trivial = distinct request containing a down-sampled or insufficient site, a builder error, or any CLI run Plus 24 (thorough 120) call sets over 5-8 populations whose projected sites agree in some populations and differ in others; positions repeat. Every cohort size 1..140 (thorough 300) once (all homozygous ALT / one missing / alternating) projected to one individual. All-heterozygous cohorts of 100-700 samples projected to half the cohort.",
+             "non-trivial = distinct request containing a down-sampled or insufficient site, a builder error, or any CLI run Plus 24 (thorough 120) call sets over 5-8 populations whose projected sites agree in some populations and differ in others; positions repeat. Every cohort size 1..140 (thorough 300) once (all homozygous ALT / one missing / alternating) projected to one individual. All-heterozygous cohorts of 100-700 samples projected to half the cohort. Round 7: `c02.mass` — 70002 and 30000 (thorough up to 200000) generated records through the binary with projection: mass + skipped = records (a consequence of C10.conservation checked on the implementation).",
         exhaustive=True, assumptions=["in-process cases drive the real site::Reader through an in-memory genotype::Reader; CLI cases run the real binary on generated VCF text / BCF (noodles writer, or a hand-written BCF2.2 encoder for mixed ploidy) / BGZF", "noodles (VCF/BCF/BGZF parsing), clap and env_logger are exercised, not modelled"] + ["binary64 evaluation of the hypergeometric pmf is compared with the exact value within 2^-30 relative, not proved"],
     ),
     "C08": dict(
@@ -95,7 +95,7 @@ PROPS = {
         nontrivial=r"^(c08|ct)-cli-",
         rule="every GT string over alleles {., 0, 1, 2, 3, 10} x separators {/,|} x ploidy 1-2 (all 78) and ploidy 3 (60 sampled; thorough all 864, plus allele 62/255/2^31 in VCF), placed in a selected column, "
              "an unselected column, or with all columns selected, through the VCF text path and the BCF binary path (mixed-ploidy GT vectors with end-of-vector padding), followed by a second record; "
-             "observed: exit status, stdout bytes, skipped summary, error site 'contig:pos'; non-trivial = every distinct request (finite alphabet) Quick covers every triploid string over {., 0, 1} and tetraploid / pentaploid all-missing strings; every GT string is also placed in real VCF text / BCF int8 vectors that the container model decodes itself (`ct.create`). Plus records in which every sample has the same other ploidy (all haploid, all triploid, all-missing tetraploid) after and before diploid records, selected / unselected / all columns, VCF, BCF and byte level. Round 6: allele indices 256 … 2^32+1 and the edges of the GT grammar (leading separator, `+1`, index 2^64-1 / 2^64, empty alleles, lone separators) in VCF text.",
+             "observed: exit status, stdout bytes, skipped summary, error site 'contig:pos'; non-trivial = every distinct request (finite alphabet) Quick covers every triploid string over {., 0, 1} and tetraploid / pentaploid all-missing strings; every GT string is also placed in real VCF text / BCF int8 vectors that the container model decodes itself (`ct.create`). Plus records in which every sample has the same other ploidy (all haploid, all triploid, all-missing tetraploid) after and before diploid records, selected / unselected / all columns, VCF, BCF and byte level. Round 6: allele indices 256 … 2^32+1 and the edges of the GT grammar (leading separator, `+1`, index 2^64-1 / 2^64, empty alleles, lone separators) in VCF text. Round 7: BCF / VCF headers with IDX attributes out of line order and records on two contigs with a ploidy error (the error must name the record's contig).",
         exhaustive=True, assumptions=["in-process cases drive the real site::Reader through an in-memory genotype::Reader; CLI cases run the real binary on generated VCF text / BCF (noodles writer, or a hand-written BCF2.2 encoder for mixed ploidy) / BGZF", "noodles (VCF/BCF/BGZF parsing), clap and env_logger are exercised, not modelled"] + ["GT '.' (whole field missing) is a missing genotype (interpretation fixed by commit b7debed)"],
     ),
     "C09": dict(
@@ -104,15 +104,15 @@ PROPS = {
         nontrivial=r"^c09-cli-",
         rule="150 (thorough 1500) call sets x sample lists (subset, random order, named/unnamed mix) given inline (-s) and as a file (-S), 3 permutations of list entries, 3 permutations of the input columns "
              "(VCF and BCF), plus error lists (absent sample, empty file, sample listed twice with different labels); every variant compared with the model, whose invariance under these transformations is proved; "
-             "non-trivial = every distinct request A third of the call sets use sample names and labels with blanks, punctuation, shared first words, a label that is a prefix of another, an empty label, non-ASCII letters. A quarter of the call sets also pass the list through a named pipe as the samples file. Every fifth call set puts haploid / triploid / tetraploid genotypes into the unlisted columns. Round 6: samples files with CR LF line endings (after every line / between lines only).",
+             "non-trivial = every distinct request A third of the call sets use sample names and labels with blanks, punctuation, shared first words, a label that is a prefix of another, an empty label, non-ASCII letters. A quarter of the call sets also pass the list through a named pipe as the samples file. Every fifth call set puts haploid / triploid / tetraploid genotypes into the unlisted columns. Round 6: samples files with CR LF line endings (after every line / between lines only). Round 7: every sixth call set has a record with a skipped and a non-diploid listed sample (fails whatever the column / list order).",
         exhaustive=False, assumptions=["in-process cases drive the real site::Reader through an in-memory genotype::Reader; CLI cases run the real binary on generated VCF text / BCF (noodles writer, or a hand-written BCF2.2 encoder for mixed ploidy) / BGZF", "noodles (VCF/BCF/BGZF parsing), clap and env_logger are exercised, not modelled"],
     ),
     "C10": dict(
         theorems=["site_weight_one", "conservation", "run_error_iff", "strict_first", "all_or_nothing", "summary_line"],
-        nontrivial=r"^(c10|ct)-cli-",
+        nontrivial=r"^(c10|ct)-cli-|^mass-",
         rule="40 (thorough 400) record streams of length 1-8 x {non-strict, strict} x a fault (ploidy error in a selected column, a site that would be skipped, a corrupt POS field, a truncated line) inserted at every "
              "position 0..len (half of them in quick), with projection in a third of the streams; checked: exit status, stdout empty on failure, 'Skipped X/Y' parsed and X + mass = Y via the model, error names "
-             "contig:pos of the first offending record; non-trivial = every distinct request Half of the streams repeat contig:position in consecutive records (counted and skipped ones); a third of the fault streams are also decoded from their VCF / BCF bytes by the container model (`ct.create`), incl. the corrupt-line kinds. One (thorough two) 600-sample stream under projection through the binary (all-heterozygous, one missing, half / half, three quarters missing). Round 6: the corrupt-line faults rotate over records whose ID / QUAL / FILTER / INFO column the VCF grammar refuses.",
+             "contig:pos of the first offending record; non-trivial = every distinct request Half of the streams repeat contig:position in consecutive records (counted and skipped ones); a third of the fault streams are also decoded from their VCF / BCF bytes by the container model (`ct.create`), incl. the corrupt-line kinds. One (thorough two) 600-sample stream under projection through the binary (all-heterozygous, one missing, half / half, three quarters missing). Round 6: the corrupt-line faults rotate over records whose ID / QUAL / FILTER / INFO column the VCF grammar refuses. Round 7: `c10.mass` runs (see C02).",
         exhaustive=True, assumptions=["in-process cases drive the real site::Reader through an in-memory genotype::Reader; CLI cases run the real binary on generated VCF text / BCF (noodles writer, or a hand-written BCF2.2 encoder for mixed ploidy) / BGZF", "noodles (VCF/BCF/BGZF parsing), clap and env_logger are exercised, not modelled"] + ["for a corrupt record the reported position is not compared (noodles' reader state), only the error kind, exit status and empty stdout"],
     ),
     "C11": dict(
@@ -124,12 +124,12 @@ PROPS = {
     ),
     "C12": dict(
         model_emitted=True,
-        theorems=["detect_magic", "prefix_schedule_free", "prefix_then_rest", "create_schedule_free", "pipeline_factors", "containers_agree", "pipeline_factors_decoded", "same_calls_same_output", "shape_by_lookup", "source_constants", "inflate_stored", "bgzf_block_roundtrip", "bgzf_roundtrip", "bgzf_partition_free", "gzip_peek", "vcf_roundtrip", "bcf_roundtrip", "detect_encoded", "containers_agree_bytes", "same_bytes_outcome", "bgzf_concat_any", "create_schedule_free_bytes"],
+        theorems=["detect_magic", "prefix_schedule_free", "prefix_then_rest", "create_schedule_free", "pipeline_factors", "containers_agree", "pipeline_factors_decoded", "same_calls_same_output", "shape_by_lookup", "source_constants", "inflate_stored", "bgzf_block_roundtrip", "bgzf_roundtrip", "bgzf_partition_free", "gzip_peek", "vcf_roundtrip", "bcf_roundtrip", "detect_encoded", "containers_agree_bytes", "same_bytes_outcome", "bgzf_concat_any", "create_schedule_free_bytes", "dict_idx_honoured", "dict_order_of_appearance", "dict_insert_keeps_earlier"],
         modules=["SfsModel.Props.C12", "SfsModel.Props.Tie", "SfsModel.Props.C12B"],
         nontrivial=r"^(c12-same|ct-cli)",
         rule="12 (thorough 60) call sets (up to 3000 records, with/without projection and sample lists, one ending in a ploidy error) each run as {vcf, vcf.gz, bcf, raw bcf} x {path, stdin} x threads {1,3,16} "
              "(thorough 1,2,3,4,8,16) x BGZF layouts (one line per block, random cuts incl. mid-line, interleaved empty blocks; thorough also single block / 9 even cuts) x 2 (thorough 3) repeated executions: "
-             "all stdout bytes and exit classes must be identical, and equal to the model's output; non-trivial = every distinct call set (each stands for 64-200 executions) Each call set is additionally read from a named pipe given as the input path (first write of 1 / 2 / 20 bytes). Byte level (`ct.create`): 40 container files (flate2-compressed BGZF, noodles-written BCF) are decoded by the model's own inflate / BGZF / VCF / BCF decoders, and 36 container files *written by the model's encoders* (stored-block BGZF with block payloads of 1 ... 65280 bytes, plain VCF, BCF) are read by the binary: outcome = createCli of the decoded call set in both directions. A quarter of the call sets carry 126 / 197 / 266 INFO definitions ahead of FORMAT/GT (16-bit FORMAT keys in BCF). Every seventh record carries a reference allele of 16 / 130 / 300 bases (BCF typed strings with inline, 8-bit and 16-bit lengths). BGZF layouts without the end-of-file marker block and with an empty stored block in its place. Round 6: every eighth call set declares INFO fields after FORMAT/GT in the header (dictionary order of appearance, F36).",
+             "all stdout bytes and exit classes must be identical, and equal to the model's output; non-trivial = every distinct call set (each stands for 64-200 executions) Each call set is additionally read from a named pipe given as the input path (first write of 1 / 2 / 20 bytes). Byte level (`ct.create`): 40 container files (flate2-compressed BGZF, noodles-written BCF) are decoded by the model's own inflate / BGZF / VCF / BCF decoders, and 36 container files *written by the model's encoders* (stored-block BGZF with block payloads of 1 ... 65280 bytes, plain VCF, BCF) are read by the binary: outcome = createCli of the decoded call set in both directions. A quarter of the call sets carry 126 / 197 / 266 INFO definitions ahead of FORMAT/GT (16-bit FORMAT keys in BCF). Every seventh record carries a reference allele of 16 / 130 / 300 bases (BCF typed strings with inline, 8-bit and 16-bit lengths). BGZF layouts without the end-of-file marker block and with an empty stored block in its place. Round 6: every eighth call set declares INFO fields after FORMAT/GT in the header (dictionary order of appearance, F36). Round 7: IDX-attribute headers (every eighth call set); layout variants for the ends of the stream (see C01).",
         exhaustive=False, assumptions=["in-process cases drive the real site::Reader through an in-memory genotype::Reader; CLI cases run the real binary on generated VCF text / BCF (noodles writer, or a hand-written BCF2.2 encoder for mixed ploidy) / BGZF", "noodles (VCF/BCF/BGZF parsing), clap and env_logger are exercised, not modelled"] + ["thread scheduling, OS pipes and hash seeds are runtime behaviour: explored by repetition, not proved"],
     ),
 }
@@ -148,7 +148,7 @@ PROPS.update({
              "read back compared with readText (f64::from_str vs parseF64, bit for bit); 2500 (thorough 50000) single values formatted, 1650 (thorough 20000) decimal strings parsed incl. a malformed stream; "
              "format detection on prefixes; 40 (thorough 400) CLI chains `sfs view -O {npy,text} --precision p` to a pipe or a file, read by view / fold / stat with auto-detection; "
              "40 (thorough 300) text -> npy -> text chains at equal precision (clause checked on the model for <= 15 significant digits); "
-             "non-trivial = distinct request other than a 1-axis spectrum without special values, a non-finite single value or an undetected prefix Plus shapes whose npy header is 64-aligned before padding (20-22 axes) and spectra of 8192 / 8193 / 9261 / 10201 / 16385 values, in-process and through pipes / files. Plus readers whose stdin delivers the file in two pieces with a pause, cut inside the header, at its end, inside a value and at a value boundary (io.pipe split<k>). Spectra also reach the readers through a named pipe given as input PATH; npy spectra of more than 128 integer counts without any 0x0a byte are piped. Round 6: files given by PATH carry rotating extensions (.npy .txt .sfs .NPY .saf.npy .npy.txt .gz) whatever format they hold.",
+             "non-trivial = distinct request other than a 1-axis spectrum without special values, a non-finite single value or an undetected prefix Plus shapes whose npy header is 64-aligned before padding (20-22 axes) and spectra of 8192 / 8193 / 9261 / 10201 / 16385 values, in-process and through pipes / files. Plus readers whose stdin delivers the file in two pieces with a pause, cut inside the header, at its end, inside a value and at a value boundary (io.pipe split<k>). Spectra also reach the readers through a named pipe given as input PATH; npy spectra of more than 128 integer counts without any 0x0a byte are piped. Round 6: files given by PATH carry rotating extensions (.npy .txt .sfs .NPY .saf.npy .npy.txt .gz) whatever format they hold. Round 7: text outputs of 100 KiB and more (21x21x21, 9500 entries).",
         exhaustive=False, assumptions=IO_ASSUME,
     ),
     "C15": dict(
@@ -161,7 +161,7 @@ PROPS.update({
              "and a third (thorough all) loaded by real numpy (python3-vt) and compared bit for bit; reader: 186 (thorough ~600) files written by numpy.lib.format.write_array for dtype(10) x byte order(<,>) x version(1.0,2.0,3.0) "
              "with boundary values (min, max, +-1, 2^53+-1.., 2^64-1025..) where model, implementation and numpy's astype('<f8') must agree bit for bit, plus numpy files that must be rejected (Fortran order, bool, complex, f2, 0-d, str, structured); "
              "synthesized headers (each accepted one also read through a BufRead whose chunks are not aligned to the item size): type(10) x byte-order char(<,>,|) x version(1,2,3) x spelling (quotes, spacing, key order, trailing commas; a third outside the accepted family), unsupported descr strings, bad versions, count mismatches, malformed tuples; "
-             "non-trivial = every distinct request Plus written spectra of 8192 / 8193 / 9261 / 10201 / 12297 / 16385 values (numpy loads them too). Every value count 1..70 and every power of two up to 2^14 with its neighbours is written once. Round 6: npy output onto a path that already holds a longer file (`io.overwrite`).",
+             "non-trivial = every distinct request Plus written spectra of 8192 / 8193 / 9261 / 10201 / 12297 / 16385 values (numpy loads them too). Every value count 1..70 and every power of two up to 2^14 with its neighbours is written once. Round 6: npy output onto a path that already holds a longer file (`io.overwrite`). Round 7: npy on stdin in two pieces with a first piece of 1-11 bytes, and through a named pipe.",
         exhaustive=True, assumptions=IO_ASSUME + ["numpy 2.x from the tooling venv is the oracle the property names; if python3-vt is missing those cases are skipped and the evidence shows no numpy-* tags"],
     ),
     "C16": dict(
@@ -171,7 +171,7 @@ PROPS.update({
         rule="20 (thorough 200) valid npy files written by the implementation: every truncation offset 0..len-1 and every extension 1..16 (zeros and random bytes) through Array::read_npy (exhaustive per file), "
              "a sample of offsets (header boundaries, value boundaries +-1, every 29th) through read::Builder with auto-detection and through the binary (view / fold / stat: exit status 1 and empty stdout required); "
              "25 (thorough 120) text files: every single-token removal and insertion, every axis edited (+1, -1, x2, +2^32), axis dropped / added, overflowing and zero-masked overflowing shapes, missing value line, tabs/newlines as separators, a non-numeric token; "
-             "non-trivial = distinct damaged input that the model rejects Plus npy files of 4096 / 8192 / 64x64 / 128x32 values (thorough also 4095, 4097, 1024, 2048, 3x4096) extended by 1 / 8 / 9 / 4096 bytes and by a whole second copy, and truncated. Every CLI damage case also runs with the input given as a PATH to a regular file and with `view -O npy`; text spectra in the spellings other tools produce (CRLF, blank lines, leading / trailing blanks, exponent / signed / bare-dot numbers, byte-order mark).",
+             "non-trivial = distinct damaged input that the model rejects Plus npy files of 4096 / 8192 / 64x64 / 128x32 values (thorough also 4095, 4097, 1024, 2048, 3x4096) extended by 1 / 8 / 9 / 4096 bytes and by a whole second copy, and truncated. Every CLI damage case also runs with the input given as a PATH to a regular file and with `view -O npy`; text spectra in the spellings other tools produce (CRLF, blank lines, leading / trailing blanks, exponent / signed / bare-dot numbers, byte-order mark). Round 7: files refused for what their header says (Fortran order, unsupported element types), whole / cut at item boundaries / extended.",
         exhaustive=True, assumptions=IO_ASSUME,
     ),
     "C18": dict(
@@ -179,11 +179,11 @@ PROPS.update({
                   "read_failure_surfaces_npy", "read_failure_is_io_npy", "read_failure_surfaces_text", "read_failure_is_io_text", "writeAll_schedule_free", "writeNpy_schedule_free", "writeText_schedule_free",
                   "write_failure_surfaces_npy", "write_failure_surfaces_text", "source_prefix_len", "create_read_failure_surfaces", "create_read_failure_surfaces_bytes"],
         modules=["SfsModel.Props.C18", "SfsModel.Props.Tie", "SfsModel.Props.C18B"],
-        nontrivial=r"^(rdnpy-|rdtext-|wr-|geno-)",
+        nontrivial=r"^(rdnpy-|rdtext-|wr-|geno-|fsize-)",
         rule="6 (thorough 30) npy files: first-chunk length enumerated 1..min(len,600) with later chunks whole / 1 byte / random 1-11, a read failure injected at every byte offset 0..len (incl. failing instead of EOF), truncated files over random schedules; "
              "the text reader likewise; writers: 1..7 bytes accepted per call and random schedules, a write failure at every offset (every third in quick); "
              "genotype reader (hook build_from_bufread) over vcf / vcf.gz / bcf / raw bcf for 3 (thorough 12) call sets: first chunk 1..150 (thorough 600) then whole / 1-byte / random chunks, 4096 / 8192 / 65535 / 65536 / 65537, all 1-byte, "
-             "and failures at 21 (thorough 101) offsets across the stream — a failing stream must give an error or the complete result; compared with the create model; non-trivial = every distinct request Plus the binary reading a named pipe given as the input path with a first write of 1 / 2 / 3 / 19 / 27 bytes (vcf, vcf.gz, bcf, raw bcf). Injected failures rotate through seven error kinds (Other, BrokenPipe, ConnectionReset, PermissionDenied, TimedOut, WouldBlock, ConnectionAborted); `io.epipe` runs view / fold / stat with the reading end of stdout already closed. The short-writing sink implements write_vectored natively (the per-call limit applies across the buffers). Round 6: `io.fsize` — stdout a regular file under RLIMIT_FSIZE with the limit inside header, values, the final bytes, at and beyond the full length (F35).",
+             "and failures at 21 (thorough 101) offsets across the stream — a failing stream must give an error or the complete result; compared with the create model; non-trivial = every distinct request Plus the binary reading a named pipe given as the input path with a first write of 1 / 2 / 3 / 19 / 27 bytes (vcf, vcf.gz, bcf, raw bcf). Injected failures rotate through seven error kinds (Other, BrokenPipe, ConnectionReset, PermissionDenied, TimedOut, WouldBlock, ConnectionAborted); `io.epipe` runs view / fold / stat with the reading end of stdout already closed. The short-writing sink implements write_vectored natively (the per-call limit applies across the buffers). Round 6: `io.fsize` — stdout a regular file under RLIMIT_FSIZE with the limit inside header, values, the final bytes, at and beyond the full length (F35). Round 7: npy 2.0 / 3.0 with headers of more than 65535 bytes through chunked and failing readers; text streams with a refused header line and a failure at every offset.",
         exhaustive=True, assumptions=IO_ASSUME + ["noodles' VCF/BCF/BGZF readers are exercised over chunk schedules, not modelled (partial: explored, not proved)"],
         correspondence_only=["schedule independence and failure propagation of the noodles-based genotype reader path (vcf, vcf.gz, bcf, raw bcf)"],
     ),
@@ -203,7 +203,7 @@ PROPS.update({
         rule="estimator level: 56 (thorough 416) 1-D count spectra with n in {3..7, 10, 25, 63, 64, 100, 169..172, 200, 400} + log-uniform up to 500 (thorough 900) chromosomes, a third with many empty classes: pi, theta, Tajima's D, Fu and Li's D, S, sum; "
              "all 14 statistics (wrong dimensionality -> the specific error) on 160 (thorough 1500) spectra with 1-4 axes of unequal length incl. 3x3, a quarter also through `sfs stat` at precision 6/12/15; 60 (thorough 400) invocations over the option surface of `sfs stat` (header row, delimiter, one precision for all / one per statistic / a wrong number, an inapplicable statistic in any position) against the `statCli` model; "
              "genotype level: 150 (thorough 1500) call sets with 1-4 populations of unequal size (and two-individual sets for KING/R0/R1), 1-60 (thorough 200) records with missing / multiallelic genotypes and unselected columns -> real site reader -> statistics, "
-             "compared with the definitions evaluated directly on the genotypes (Spec.g*, published estimators on the class counts); a fifth through `sfs create | sfs stat --precision 12`; non-trivial = distinct request on a spectrum with more than 4 cells or any genotype-level / CLI case Multiallelic genotypes are spelled with one- and two-digit allele indices (0/2, 0/10, 2/1, 1|12). Every n from 3 to 260 (thorough 700) once at estimator level (the two D statistics on every fifth). The genotype-level CLI cases include pooled call sets (no sample list) whose VCF carries stale AC / AN. Round 6: `st.harm` sweeps harmonic(n) and p_harmonic(n,2) for every n up to 12288 (thorough 40000); spectra with 1024-5009 entries (1-D, 33x33, 11x11x11, 6^4); theta at n = 1024 (thorough 2504, 4096, 5008).",
+             "compared with the definitions evaluated directly on the genotypes (Spec.g*, published estimators on the class counts); a fifth through `sfs create | sfs stat --precision 12`; non-trivial = distinct request on a spectrum with more than 4 cells or any genotype-level / CLI case Multiallelic genotypes are spelled with one- and two-digit allele indices (0/2, 0/10, 2/1, 1|12). Every n from 3 to 260 (thorough 700) once at estimator level (the two D statistics on every fifth). The genotype-level CLI cases include pooled call sets (no sample list) whose VCF carries stale AC / AN. Round 6: `st.harm` sweeps harmonic(n) and p_harmonic(n,2) for every n up to 12288 (thorough 40000); spectra with 1024-5009 entries (1-D, 33x33, 11x11x11, 6^4); theta at n = 1024 (thorough 2504, 4096, 5008). Round 7: two thirds of the genotype-level call sets repeat positions and start the second contig where the first ended.",
         exhaustive=False, assumptions=ST_ASSUME,
         correspondence_only=["accuracy of the binary64 evaluation (2^-30 relative bound is tested, not derived)"],
     ),
@@ -228,7 +228,7 @@ PROPS.update({
         rule="outcome classes {OK, ERR, PANIC}: the full grid statistic(14) x shapes with 1-4 axes of length 0..4 (all 780 shapes in thorough; 1-3 axes + a fifth of the 4-axis shapes in quick) in-process (each statistic separately, panics caught), a sample of it through `sfs stat` / `sfs fold --fill *` / `sfs view [-O npy]` on text inputs (zero-element spectra included), view option combinations on degenerate shapes, "
              "27 empty / 1-7 byte / header-only inputs x 5 invocations, 24 absurd declared shapes (2^32 x 2^32, zero-masked overflow, 2^64 +- 1, 300 / 22000 axes) x 12 invocations, 35 option values at and beyond their bounds (--precision 65535/65536/2^32/2^64, -p 2^63.., axis 2^64-1, delimiters), 29 contradictory sample lists / projections / thread counts for create, "
              "and a mutation stream of 2400 (thorough 50000) inputs (bit flips, byte edits, deletions, duplications, truncations, splices, huge numbers, separators) over text / npy spectra, VCF, raw BCF and BGZF payloads re-wrapped in valid blocks; where the model predicts the class it must match, elsewhere the run must end in OK or in a non-zero status with a diagnostic on stderr; "
-             "non-trivial = distinct request whose class the model predicts, or any run that ends in a diagnosed error Plus npy / text headers declaring degenerate shapes ((), (,), (0,), (1,), (1, 1), (0, 0), <>) x each of the 14 statistics separately and the view / fold options. Plus every axis length 2..260 (thorough 600) once, projected to two chromosomes with all mass in the last cell, every fourth also to one less than it has. Every single-axis marginalization / keep / projection of every zero-element shape of the grid through the binary. Round 6: axis lists of every form for -m / -M on spectra of 1-6 axes; zero-element shapes at the limits of usize (F37).",
+             "non-trivial = distinct request whose class the model predicts, or any run that ends in a diagnosed error Plus npy / text headers declaring degenerate shapes ((), (,), (0,), (1,), (1, 1), (0, 0), <>) x each of the 14 statistics separately and the view / fold options. Plus every axis length 2..260 (thorough 600) once, projected to two chromosomes with all mass in the last cell, every fourth also to one less than it has. Every single-axis marginalization / keep / projection of every zero-element shape of the grid through the binary. Round 6: axis lists of every form for -m / -M on spectra of 1-6 axes; zero-element shapes at the limits of usize (F37). Round 7: BCF whose records carry more or fewer samples than the header names.",
         exhaustive=True, assumptions=["the binary is the debug build the test suite uses (overflow checks on); in-process cases run under catch_unwind", "noodles / clap / nom / flate2 are exercised, not modelled; 14 panic sites inside noodles-bcf 0.32.0 (`todo!` on reserved typed values, split_at on zero alleles) are listed in known_findings.json and reported as KNOWN-FINDING"],
         correspondence_only=["absence of panics in third-party parsing of arbitrary VCF/BCF bytes (explored by the mutation stream)", "clap's handling of option values (explored)"],
     ),
